@@ -8,6 +8,7 @@ import (
 	"crypto/x509/pkix"
 	"encoding/binary"
 	"fmt"
+	"io"
 	"math/big"
 	"os"
 	"path/filepath"
@@ -177,17 +178,67 @@ func c03Eval(c *Ctx, cs Case) {
 	fail := func(what, goObs, spec string) {
 		c.Fail(Failure{Kind: "property", What: what, Case: cs, Go: clip(goObs), Spec: clip(spec)})
 	}
-	if wf := fieldAfter(c.Drv.Ask("pe.spec", hx(img)), "wf="); wf != "true" {
+	spec0 := c.Drv.Ask("pe.spec", hx(img))
+	if wf := fieldAfter(spec0, "wf="); wf != "true" {
 		c.Fail(Failure{Kind: "tie", What: "generator produced an image the Spec does not consider well-formed", Case: cs})
 		return
 	}
+	pre0 := unhx(fieldAfter(spec0, "pre="))
+	// pair mode: the history is signed while a second image (the partner) is signed by another goroutine through its
+	// own object; the two take turns at read granularity under the case's schedule (sched.go)
+	pair := cs.I("pair") != 0
+	sch := newTurnSched()
+	quanta := caseInts(cs["sched"])
+	parseVia := func(b []byte) (q *authenticode.PECOFFBinary, err error) {
+		var rd io.ReaderAt = bytes.NewReader(b)
+		if pair {
+			rd = turnReader{rd, sch}
+		}
+		return authenticode.Parse(rd)
+	}
+	// digest queries under other algorithms that the caller puts between the steps (hq != 0)
+	hq := uint32(cs.I("hq"))
+	digestQuery := func(q *authenticode.PECOFFBinary, slot, step int, where string) {
+		if hq == 0 {
+			return
+		}
+		h := c01Algs(hq + uint32(step))[slot]
+		var d []byte
+		pan, _ := safely(func() { d = q.Hash(h) })
+		hh := h.New()
+		hh.Write(pre0)
+		if want := hh.Sum(nil); pan || !bytes.Equal(d, want) {
+			fail(fmt.Sprintf("step %d: the %v digest asked of %s is not that of the specification's hash input of the image before signing", step, h, where), hx(d), hx(want))
+		}
+		c.Class(fmt.Sprintf("digest-query/%v", h))
+	}
 	var p *authenticode.PECOFFBinary
 	var err error
-	if pan, msg := safely(func() { p, err = authenticode.Parse(bytes.NewReader(img)) }); pan || err != nil {
+	if pan, msg := safely(func() { p, err = parseVia(img) }); pan || err != nil {
 		fail("Parse failed on a well-formed image", fmt.Sprint(msg, err), "")
 		return
 	}
 	before := p.Hash(crypto.SHA256)
+	var pB *authenticode.PECOFFBinary
+	var sigsB [][]byte
+	if pair {
+		var imgB []byte
+		if cs.S("partner") != "" {
+			imgB, _ = os.ReadFile(filepath.Join(c.RepoDir, cs.S("partner")))
+		} else {
+			sB := s
+			sB.Seed = s.Seed + 1 // the same layout, other contents: every byte that is not a layout field differs
+			imgB = buildPE(sB).img
+		}
+		if fieldAfter(c.Drv.Ask("pe.spec", hx(imgB)), "wf=") != "true" {
+			c.Fail(Failure{Kind: "tie", What: "the partner image is not well-formed for the Spec", Case: cs})
+			return
+		}
+		if pan, msg := safely(func() { pB, err = parseVia(imgB) }); pan || err != nil {
+			fail("Parse failed on a well-formed image (the partner)", fmt.Sprint(msg, err), "")
+			return
+		}
+	}
 	bodyEnd := b.bodyEnd
 	oldEntries := extractCertTable(img)
 	var sigs [][]byte
@@ -212,7 +263,38 @@ func c03Eval(c *Ctx, cs Case) {
 	for i, st := range steps {
 		cert, key := certOf(st.key)
 		var sig []byte
-		if pan, msg := safely(func() { sig, err = p.Sign(key, cert) }); pan || err != nil {
+		digestQuery(p, 0, i, "the object about to be signed")
+		if pair {
+			// both signers run at once, each on its own object; what each of them returns must be what the statement
+			// says of a signature of ITS image
+			var sigB []byte
+			var errB error
+			var panA, panB bool
+			var msg string
+			parks, free := sch.run(quanta,
+				func() { panA, msg = safely(func() { sig, err = p.Sign(key, cert) }) },
+				func() { panB, _ = safely(func() { sigB, errB = pB.Sign(key, cert) }) })
+			c.Class(fmt.Sprintf("concurrent-sign/overlapped=%v/abandoned=%v", parks > 0, free))
+			if panA || err != nil {
+				fail(fmt.Sprintf("step %d: Sign failed while another image is being signed", i), fmt.Sprint(msg, err), "")
+				return
+			}
+			if panB || errB != nil {
+				fail(fmt.Sprintf("step %d: Sign of the partner image failed while this image is being signed", i), fmt.Sprint(panB, errB), "")
+				return
+			}
+			sigsB = append(sigsB, sigB)
+			outB := pB.Bytes()
+			specB := c.Drv.Ask("pe.spec", hx(outB))
+			wantB := sha256.Sum256(unhx(fieldAfter(specB, "pre=")))
+			if fieldAfter(specB, "wf=") != "true" {
+				fail(fmt.Sprintf("step %d: the partner image, signed at the same time, is not a well-formed image", i), "", "")
+			} else if d := embeddedDigest(sigB); !bytes.Equal(d, wantB[:]) {
+				fail(fmt.Sprintf("step %d: two images signed at the same time through two objects (turns of %v reads): the digest embedded in the partner's signature is not the specification digest of the partner's output file", i, quanta), hx(d), hx(wantB[:]))
+			} else if got := goVerifyClass(outB, cert); got != "ok true" {
+				fail(fmt.Sprintf("step %d: the partner image, signed at the same time, does not verify against the certificate that signed it", i), got, "ok true")
+			}
+		} else if pan, msg := safely(func() { sig, err = p.Sign(key, cert) }); pan || err != nil {
 			fail(fmt.Sprintf("step %d: Sign failed", i), fmt.Sprint(msg, err), "")
 			return
 		}
@@ -226,7 +308,7 @@ func c03Eval(c *Ctx, cs Case) {
 		stillIntact(fmt.Sprintf("Sign and Bytes() of step %d", i))
 		held = append(held, &heldImage{step: i, out: out, snap: append([]byte{}, out...)})
 		if st.reparse {
-			if pan, msg := safely(func() { p, err = authenticode.Parse(bytes.NewReader(out)) }); pan || err != nil {
+			if pan, msg := safely(func() { p, err = parseVia(out) }); pan || err != nil {
 				fail(fmt.Sprintf("step %d: re-parsing the signed output failed", i), fmt.Sprint(msg, err), "")
 				return
 			}
@@ -282,6 +364,39 @@ func c03Eval(c *Ctx, cs Case) {
 		} else if d := p2.Hash(crypto.SHA256); !bytes.Equal(d, before) {
 			fail(fmt.Sprintf("step %d: re-parsing the output reports a different digest than before signing", i), hx(d), hx(before))
 		}
+		if hq != 0 {
+			// the re-parsed copy is asked for another digest first and then verified on that same object
+			digestQuery(p2, 2, i, "the re-parsed output")
+			for k := 0; k < 4; k++ {
+				cert, _ := certOf(k)
+				var ok bool
+				var verr error
+				if pan, _ := safely(func() { ok, verr = p2.Verify(cert) }); pan || signedBy[k] != (ok && verr == nil) {
+					fail(fmt.Sprintf("step %d: Verify on the re-parsed output after a digest query on that object (certificate %d, signed by it: %v)", i, k, signedBy[k]), fmt.Sprint(pan, ok, verr), fmt.Sprint(signedBy[k]))
+				}
+			}
+		}
+		// what Signatures() lists for the re-parsed output: the old entries and the new signatures, in order, as
+		// revision-2.0 PKCS#7 entries with the length of header + body; and Open() delivers the bytes of Bytes()
+		if p2 != nil {
+			var sl []*signature.WINCertificate
+			var serr error
+			wantBodies := append(append([][]byte{}, oldEntries...), sigs...)
+			if pan, msg := safely(func() { sl, serr = p2.Signatures() }); pan || serr != nil || len(sl) != len(wantBodies) {
+				fail(fmt.Sprintf("step %d: Signatures() of the re-parsed output does not list the %d entries of the table", i, len(wantBodies)), fmt.Sprint(msg, serr, len(sl)), "")
+			} else {
+				for j, w := range sl {
+					if !bytes.Equal(w.Certificate, wantBodies[j]) || int(w.Length) != 8+len(wantBodies[j]) || w.Revision != 0x0200 || w.CertType != 0x0002 {
+						fail(fmt.Sprintf("step %d: entry %d listed by Signatures() of the re-parsed output is not the revision-2.0 PKCS#7 entry holding signature %d of the history", i, j, j), fmt.Sprintf("len=%d rev=%#x type=%#x body=%s", w.Length, w.Revision, w.CertType, clip(hx(w.Certificate))), fmt.Sprintf("len=%d rev=0x200 type=0x2 body=%s", 8+len(wantBodies[j]), clip(hx(wantBodies[j]))))
+						break
+					}
+				}
+			}
+			var streamed []byte
+			if pan, _ := safely(func() { streamed, _ = io.ReadAll(p2.Open()) }); pan || !bytes.Equal(streamed, out) {
+				fail(fmt.Sprintf("step %d: Open() of the re-parsed output does not deliver the bytes it was parsed from", i), clip(hx(streamed)), clip(hx(out)))
+			}
+		}
 		// verification matrix: every signer so far verifies, a non-signer does not
 		for k := 0; k < 4; k++ {
 			cert, _ := certOf(k)
@@ -306,6 +421,17 @@ func c03Eval(c *Ctx, cs Case) {
 				fail(fmt.Sprintf("step %d: Signatures() of the signed object failed", i), fmt.Sprint(msg, serr), "")
 			} else if len(sl) != len(oldEntries)+len(sigs) {
 				fail(fmt.Sprintf("step %d: Signatures() of the signed object lists %d entries", i, len(sl)), fmt.Sprint(len(sl)), fmt.Sprint(len(oldEntries)+len(sigs)))
+			}
+			digestQuery(p, 1, i, "the signed object")
+			if pair {
+				// both images are verified at the same time against the certificate that has just signed them
+				var okA, okB bool
+				var eA, eB error
+				q2 := append(append([]int{}, quanta[len(quanta)/2:]...), quanta[:len(quanta)/2]...)
+				sch.run(q2, func() { safely(func() { okA, eA = p.Verify(cert) }) }, func() { safely(func() { okB, eB = pB.Verify(cert) }) })
+				if !okA || eA != nil || !okB || eB != nil {
+					fail(fmt.Sprintf("step %d: the image and the partner image are verified at the same time (turns of %v reads) against the certificate that signed both", i, q2), fmt.Sprint(okA, eA, " / ", okB, eB), "true <nil> / true <nil>")
+				}
 			}
 			for k := 0; k < 4; k++ {
 				cert, _ := certOf(k)
@@ -356,9 +482,20 @@ func c03Gen(c *Ctx) {
 		}
 		return steps
 	}
+	// a schedule for two goroutines: the first is parked inside its first or second read, later turns last 0..3 reads
+	mkSched := func() []interface{} {
+		q := []interface{}{int64(c.Rng.Intn(2))}
+		for len(q) < 6 {
+			q = append(q, int64(c.Rng.Intn(4)))
+		}
+		return q
+	}
 	// third-party signed and unsigned binaries of the repository as starting points
-	for _, f := range []string{"tests/data/binary/HelloWorld.efi", "tests/data/binary/HelloWorld.efi.signed", "authenticode/testdata/test.pecoff", "authenticode/testdata/test.pecoff.signed"} {
-		c03Eval(c, Case{"op": "sign-history", "path": f, "steps": mkSteps(), "bits": int64(2048), "cnpad": int64(c.Rng.Intn(9))})
+	fixtures := []string{"tests/data/binary/HelloWorld.efi", "tests/data/binary/HelloWorld.efi.signed", "authenticode/testdata/test.pecoff", "authenticode/testdata/test.pecoff.signed"}
+	for i, f := range fixtures {
+		c03Eval(c, Case{"op": "sign-history", "path": f, "steps": mkSteps(), "bits": int64(2048), "cnpad": int64(c.Rng.Intn(9)), "hq": int64(i % 2 * (1 + c.Rng.Intn(1<<20)))})
+		c03Eval(c, Case{"op": "sign-history", "path": f, "steps": mkSteps(), "bits": int64(2048), "cnpad": int64(c.Rng.Intn(9)), "hq": int64((i + 1) % 2 * (1 + c.Rng.Intn(1<<20))),
+			"pair": int64(1), "sched": mkSched(), "partner": fixtures[(i+2)%len(fixtures)]})
 	}
 	for i := 0; i < c.N(50, 3000) && c.NFailures() < 6; i++ {
 		s := genPeSpec(c, i%20 == 0)
@@ -368,13 +505,20 @@ func c03Gen(c *Ctx) {
 		cs["steps"] = steps
 		cs["bits"] = int64(bitsets[c.Rng.Intn(len(bitsets))])
 		cs["cnpad"] = int64(i % 9) // 0: the standard shapes; 1..8: common names of 8 consecutive lengths
+		if i%3 != 0 {              // two histories of three: digest queries under other algorithms between the steps
+			cs["hq"] = int64(1 + c.Rng.Intn(1<<20))
+		}
+		if i%2 == 1 { // every second history is signed while a partner image is signed by another goroutine
+			cs["pair"] = int64(1)
+			cs["sched"] = mkSched()
+		}
 		c03Eval(c, cs)
 	}
 }
 
 func init() {
 	register("C03", &PropDef{
-		Rule:   "well-formed images from the C01 generator (all layout classes; unsigned and with an existing 1- or 2-entry certificate table) x signing histories of 1..3 signatures by two RSA keys (one under a CA-issued certificate; 2048; thorough also 3072/4096) in any order, the same key possibly twice, under certificates whose names run through 8 consecutive lengths so that the signature length takes every residue mod 8, the signers' certificates sharing nothing / the serial number only / the issuer name only, with serialise/re-parse after a random subset of steps; every third image carries a left-over certificate-table address with size 0 in its directory entry (address classes as in C01: 1, inside headers / sections / trailing data, end of sections, file end, padded file end, beyond the file, 2^32-1), i.e. an image whose signatures were removed by clearing the size; every serialised image of a history stays held (with a private copy) while the object is signed, queried and serialised again and is compared with its copy after each step, and each step serialises twice; after every step the output bytes are checked by an independent walker, its digest by the Lean Spec, and the 3-certificate verification matrix by the library, the Lean Impl model and the Lean Spec. Every case is non-trivial; distinct = distinct (image spec, history).",
+		Rule:   "well-formed images from the C01 generator (all layout classes; unsigned and with an existing 1- or 2-entry certificate table) x signing histories of 1..3 signatures by two RSA keys (one under a CA-issued certificate; 2048; thorough also 3072/4096) in any order, the same key possibly twice, under certificates whose names run through 8 consecutive lengths so that the signature length takes every residue mod 8, the signers' certificates sharing nothing / the serial number only / the issuer name only, with serialise/re-parse after a random subset of steps; every third image carries a left-over certificate-table address with size 0 in its directory entry (address classes as in C01: 1, inside headers / sections / trailing data, end of sections, file end, padded file end, beyond the file, 2^32-1), i.e. an image whose signatures were removed by clearing the size; every serialised image of a history stays held (with a private copy) while the object is signed, queried and serialised again and is compared with its copy after each step, and each step serialises twice; in two histories of three the caller asks the objects for digests under other algorithms between the steps (one of SHA-1/256/384/512, chosen by the history, of the object about to be signed, of the signed object before it is verified, and of the re-parsed output, which is then verified on that same object): each must be that algorithm over the specification's hash input and must leave signing and verification as they are; every second history (and each repository binary once) is signed WHILE A SECOND IMAGE IS SIGNED by another goroutine through an object of its own (the same layout with other contents; for a repository binary another repository binary) - both objects read through caller-supplied io.ReaderAts that make the two goroutines take turns at read granularity under the history's schedule (first turn 0..1 reads, later turns 0..3; sched.go), so each Sign is parked in the middle of hashing while the other proceeds, deterministically - and after each such step both images are verified at the same time: the image's output is judged as always, the partner's signature must embed the specification digest of the partner's output, which must verify; Signatures() of the re-parsed output must list exactly the old entries and the new signatures (body bytes, dwLength = 8 + body, revision 0x0200, type 2) and Open() must deliver the bytes of Bytes(); after every step the output bytes are checked by an independent walker, its digest by the Lean Spec, and the 3-certificate verification matrix by the library, the Lean Impl model and the Lean Spec. Every case is non-trivial; distinct = distinct (image spec, history).",
 		Assume: []string{"no two signing certificates share both issuer and serial (two different keys under one issuer+serial make the verification loop stop with an error at the first of them; noted, not claimed)", "RSA PKCS#1 v1.5 signatures are deterministic"},
 		Eval:   c03Eval, Gen: c03Gen,
 	})
